@@ -794,12 +794,11 @@ impl<'a> Exec<'a> {
                         format!("construction of h{h} failed: {}", short(&e)),
                     ));
                 }
+                // hostile / limited construction: any *reported* error is acceptable, including an
+                // internal assertion caught at the API boundary (C20 only forbids internal panics
+                // once a constraint has been built)
                 if cls == ErrClass::Panic {
-                    return Err(self.viol(
-                        "no_internal_panic",
-                        "panic:new",
-                        format!("construction of h{h} panicked: {}", short(&e)),
-                    ));
+                    self.stats.probe("construction_error_was_caught_panic");
                 }
                 s.failed = Some(e);
                 self.stats.fault("construction_limit");
@@ -1462,11 +1461,13 @@ impl<'a> Exec<'a> {
             H::M(m @ MH::R(_)) => m,
             _ => return Ok(()),
         };
-        let r = m.test_trigger_lexer_error();
+        // mark the group first: in the real-thread supplement a sibling may see the poisoned lock
+        // before this call returns
         if !failed {
             self.ctx.poisoned.lock().unwrap().push(group);
             self.stats.fault("interruption_in_critical_section");
         }
+        let r = m.test_trigger_lexer_error();
         match r {
             Ok(()) => Err(self.viol(
                 "sticky_failure",
